@@ -5,9 +5,12 @@ import (
 	"bytes"
 	"encoding/binary"
 	"fmt"
+	"github.com/SAP/go-dblib/tds"
 	"testing"
 	"time"
 	_ "time/tzdata"
+	"verif/internal/flatch"
+	"verif/internal/pkggen"
 
 	"github.com/SAP/go-dblib/asetime"
 	"github.com/SAP/go-dblib/asetypes"
@@ -582,4 +585,90 @@ func TestLocalTimes(t *testing.T) {
 		return c
 	}
 	vh.Check(t, "TestLocalTimes", vh.N(20000, 400000), gen, runLocal)
+}
+
+// ---- the way a value really reaches the wire: as a parameter of a statement, through the
+// field layer of a PARAMS package (format by LookupFieldFmtData). The bytes of the value
+// inside the package are the ones the reference codec writes for it.
+
+type fieldCase struct {
+	V   valgen.Val `json:"value"`
+	Col rc.Col     `json:"column_format"`
+}
+
+func runField(c fieldCase) (f *vh.Failure) {
+	v := c.V
+	defer func() {
+		if r := recover(); r != nil {
+			f = vh.Failf(class(v)+"-panic", "field layer: panic for %s %s: %v", valgen.TW{T: v.T, W: v.W}, valgen.Key(v), r)
+		}
+	}()
+	// the format as the server (or the statement's description) gave it
+	fm := rc.Fmt{Tok: rc.TokParamFmt, Cols: []rc.Col{c.Col}}
+	enc, err := rc.EncodePkg(rc.P{Fmt: &fm}, nil)
+	if err != nil {
+		vh.HarnessBug("encode format: %v", err)
+	}
+	fch := flatch.New(enc.B[1:])
+	fmtPkg, err := pkggen.LibDecode(rc.TokParamFmt, nil, fch)
+	if err != nil || fch.Left() != 0 {
+		return vh.Failf(class(v), "field layer: library cannot decode the format package: %v", err)
+	}
+	pp := tds.NewParamsPackage()
+	if err := pp.LastPkg(fmtPkg); err != nil || len(pp.DataFields) != 1 {
+		return vh.Failf(class(v), "field layer: LastPkg: %v (%d fields)", err, len(pp.DataFields))
+	}
+	pp.DataFields[0].SetValue(valgen.ToGo(v))
+	out := flatch.New(nil)
+	if err := pp.WriteTo(out); err != nil {
+		return vh.Failf(class(v), "field layer: writing %s %s as a parameter failed: %v", valgen.TW{T: v.T, W: v.W}, valgen.Key(v), err)
+	}
+	row := rc.Row{Tok: rc.TokParams, Cells: []rc.Cell{{V: v.V}}}
+	ref, err := rc.EncodePkg(rc.P{Row: &row}, &fm)
+	if err != nil {
+		vh.HarnessBug("reference encoder rejects the parameter row: %v", err)
+	}
+	a, b := out.B, ref.B
+	if v.T == rc.TDecN || v.T == rc.TNumN {
+		// compared through the decoder: the magnitude may be written with leading zero bytes
+		got, err := rc.DecodePkg(&rc.R{B: out.B}, &fm)
+		if err != nil || got.Row == nil || len(got.Row.Cells) != 1 {
+			return vh.Failf(class(v), "field layer: independent decoder rejects the PARAMS package % x: %v", head(out.B), err)
+		}
+		ea, _ := rc.Encode(got.Row.Cells[0].V)
+		eb, _ := rc.Encode(v.V)
+		a, b = stripNumeric(ea), stripNumeric(eb)
+	}
+	if !bytes.Equal(a, b) {
+		return vh.Failf("C05/field-layer-wire", "%s %s as a parameter: the PARAMS package is % x, TDS layout is % x", valgen.TW{T: v.T, W: v.W}, valgen.Key(v), head(out.B), head(ref.B))
+	}
+	vh.Label("field-layer:" + valgen.TW{T: v.T, W: v.W}.String())
+	return nil
+}
+
+func TestFieldLayerWire(t *testing.T) {
+	gen := func(rt *rapid.T) fieldCase {
+		for {
+			tw := valgen.GenTW(rt)
+			switch tw.T {
+			case rc.TText, rc.TImage, rc.TUnitext, rc.TXML:
+				continue // a client never sends the text-pointer family
+			}
+			v := valgen.Gen(rt, tw)
+			if len(v.S) > 200 {
+				v = valgen.GenFor(rt, tw, v.Prec, v.Scal, 200)
+			}
+			if len(v.B) > 200 {
+				v.B = v.B[:200]
+			}
+			v.JitNs = 0
+			if valgen.IsNullable(tw.T) && rapid.IntRange(0, 9).Draw(rt, "null") == 0 {
+				v = valgen.Val{V: rc.V{T: tw.T, W: tw.W, Null: true, Prec: v.Prec, Scal: v.Scal}}
+			}
+			col := pkggen.ColFor(rt, rc.TokParamFmt, v)
+			col.Status &^= rc.ColumnStatus
+			return fieldCase{V: v, Col: col}
+		}
+	}
+	vh.Check(t, "TestFieldLayerWire", vh.N(20000, 400000), gen, runField)
 }
